@@ -1,4 +1,6 @@
 import Sentinel.Lemmas.EntryLedger
+import Sentinel.Lemmas.EntryPool
+import Sentinel.Lemmas.EntrySchedule
 /-!
 # C01 — Entry/Exit accounting is conserved and correctly attributed
 (property theorems only; the simulation lemmas live in `Sentinel/Lemmas/Entry.lean`)
@@ -82,6 +84,90 @@ theorem default_verdict_agrees (fix : Bool) (t0 : Nat) (ops : List TOp) (h0 : 0 
     defaultRule iso hot ((obsConc (run fix t0 ops) (some res)).getD 0) batch args =
     defaultRule iso hot ((ledConc fix ops.reverse (some res)).getD 0) batch args := by
   rw [conc_refines_ledger fix t0 ops h0 hm]
+
+/-! ## (1b) pooling is transparent
+
+`EntryPool.runR` is the same lifecycle with `base.ctxPool` modelled: context objects whose fields persist across
+`Put`/`Get`, entries that keep their pointer after `Exit`, and a pool that hands out **any** free object or a new one
+(the oracle number paired with each op).  Whatever the pool does, every node, every gauge, the recording log and the
+`Err`/`Args` seen through every live entry are those of the pool-free model — hence, by (1), the ledger's.  This is the
+statement the two repairs (`args-alias`, `late-exit-error`) establish; no time-monotonicity is needed. -/
+theorem pooled_refines_pool_free (fix : Bool) (t0 : Nat) (h : List (TOp × Nat)) :
+    let p := EntryPool.runR fix t0 h
+    let s := Entry.runR fix t0 (h.map (·.1))
+    (∀ k, EntryPool.nodeOf p k = Entry.nodeOf s k) ∧ p.log = s.log ∧
+    (∀ id, EntryPool.obsCtx p id = Entry.obsCtx s id) ∧
+    (∀ id, EntryPool.obsEntered p id = Entry.obsEntered s id) := by
+  have r := EntryPool.rel_runR fix t0 h
+  refine ⟨?_, r.log, ?_, ?_⟩
+  rotate_left 2
+  · intro id
+    unfold EntryPool.obsEntered Entry.obsEntered
+    have := r.isnil id
+    cases hp : EntryPool.findP (EntryPool.runR fix t0 h).ents id <;>
+      cases hs : findE (Entry.runR fix t0 (h.map (·.1))).ents id <;> rw [hp, hs] at this <;> simp_all
+  · intro k
+    cases k with
+    | none => simp only [EntryPool.nodeOf, Entry.nodeOf, r.inb]
+    | some res => simp only [EntryPool.nodeOf, Entry.nodeOf, r.nodes]
+  · intro id
+    unfold EntryPool.obsCtx Entry.obsCtx
+    have hex := r.exited id
+    cases hp : EntryPool.findP (EntryPool.runR fix t0 h).ents id with
+    | none =>
+      rw [hp] at hex
+      cases hs : findE (Entry.runR fix t0 (h.map (·.1))).ents id with
+      | none => rfl
+      | some c => rw [hs] at hex; simp at hex
+    | some pe =>
+      rw [hp] at hex
+      cases hs : findE (Entry.runR fix t0 (h.map (·.1))).ents id with
+      | none => rw [hs] at hex; simp at hex
+      | some c =>
+        rw [hs] at hex
+        have hexi : pe.exited = c.exited := by simpa using hex
+        by_cases hx : pe.exited = true
+        · have : c.exited = true := hexi ▸ hx
+          simp [hx, this]
+        · have hpf : pe.exited = false := by simpa using hx
+          have hcf : c.exited = false := hexi ▸ hpf
+          have := (r.live id pe hp hpf).2
+          rw [hs] at this
+          have hc : c = (EntryPool.runR fix t0 h).store.getD pe.ctx EntryPool.freshCtx := Option.some.inj this
+          have hcf' : ((EntryPool.runR fix t0 h).store.getD pe.ctx EntryPool.freshCtx).exited = false := hc ▸ hcf
+          simp only [hpf, Bool.false_eq_true, if_false, hcf']
+          rw [← hc]; simp [hcf]
+
+/-- in particular the pooled model's observables are the ledger's, for every pool behaviour -/
+theorem pooled_refines_ledger (fix : Bool) (t0 : Nat) (h : List (TOp × Nat)) (h0 : 0 < t0)
+    (hm : MonoR t0 (h.map (·.1))) (k : Key) (Iv now : Nat) (hnow : lastT t0 (h.map (·.1)) ≤ now) (hIv : Iv ≤ 10000) :
+    (EntryPool.nodeOf (EntryPool.runR fix t0 h) k).map (fun n => viewSum n.arr Iv now) = ledWindow fix (h.map (·.1)) k Iv now ∧
+    (EntryPool.nodeOf (EntryPool.runR fix t0 h) k).map (·.conc) = ledConc fix (h.map (·.1)) k ∧
+    (∀ id, EntryPool.obsCtx (EntryPool.runR fix t0 h) id = ledCtx (h.map (·.1)) id) := by
+  obtain ⟨h1, _, h3, _⟩ := pooled_refines_pool_free fix t0 h
+  have hrev : ((h.map (·.1)).reverse).reverse = h.map (·.1) := List.reverse_reverse _
+  have hm' : Mono t0 (h.map (·.1)).reverse := by unfold Mono; rw [hrev]; exact hm
+  have hnow' : lastT t0 ((h.map (·.1)).reverse).reverse ≤ now := by rw [hrev]; exact hnow
+  have w := window_refines_ledger fix t0 (h.map (·.1)).reverse h0 hm' k Iv now hnow' hIv
+  have c := conc_refines_ledger fix t0 (h.map (·.1)).reverse h0 hm' k
+  have x := fun id => (ctx_refines_ledger fix t0 (h.map (·.1)).reverse h0 hm' id).1
+  unfold run at w c x
+  simp only [hrev] at w c x
+  refine ⟨?_, ?_, ?_⟩
+  · rw [h1 k]; exact w
+  · rw [h1 k]; exact c
+  · intro id; rw [h3 id]; exact x id
+
+/-- why the `exited` guard matters (the repaired defect `late-exit-error`, kept as a regression witness): with the
+unguarded `SetError`, a late `TraceError` on an exited entry reaches the entry that now owns the recycled object -/
+theorem late_exit_error_witness :
+    let e1 : EntryOp := { id := 1, res := "x1", inbound := false, batch := 1, args := [], chain := {} }
+    let e2 : EntryOp := { id := 2, res := "x2", inbound := false, batch := 1, args := [], chain := {} }
+    let p := EntryPool.runR false 1000 [((1000, .entry e2), 0), ((1000, .exit 1 none), 0), ((1000, .entry e1), 0)]
+    EntryPool.obsCtx p 2 = some (none, []) ∧
+    EntryPool.obsCtx (EntryPool.apiTrace p 1 (some "late")) 2 = some (none, []) ∧
+    EntryPool.obsCtx (EntryPool.apiTraceUnguarded p 1 (some "late")) 2 = some (some "late", []) := by
+  decide
 
 /-! ## (2) corollaries: what the ledger says, hence what the model does
 
@@ -182,6 +268,43 @@ theorem gauge_zero_when_idle (fix : Bool) (t0 : Nat) (ops : List TOp) (h0 : 0 < 
   simp only [Option.some.injEq] at hg
   rw [← hg, hga]
   exact gauge_zero_idle _ k idle
+
+/-! ## (2b) many goroutines, at the granularity of API calls
+
+Any interleaving of the calls of several goroutines is itself a history, so (1) and (2) hold for it.  In addition the
+*account* does not depend on the interleaving: if two histories differ only by the order of adjacent calls addressed to
+different entries (`Sched`), every counter of every window, every gauge, every entry's context and every `Entry` outcome is
+the same; only the peak-concurrency samples may differ.  (This is what allows the check's multi-goroutine soak to compare the
+final state with a sequential run.  Interleavings *inside* a call — the atomics of the bucket array — are C09's / C15's.) -/
+theorem schedule_independent (fix : Bool) (t0 : Nat) (ops1 ops2 : List TOp) (h0 : 0 < t0)
+    (hm1 : Mono t0 ops1) (hm2 : Mono t0 ops2) (hs : Sched ops1.reverse ops2.reverse)
+    (k : Key) (Iv now : Nat) (hnow1 : lastT t0 ops1.reverse ≤ now) (hnow2 : lastT t0 ops2.reverse ≤ now) (hIv : Iv ≤ 10000) :
+    (obsWindow (run fix t0 ops1) k Iv now).map cnt = (obsWindow (run fix t0 ops2) k Iv now).map cnt ∧
+    obsConc (run fix t0 ops1) k = obsConc (run fix t0 ops2) k ∧
+    (∀ id, obsCtx (run fix t0 ops1) id = obsCtx (run fix t0 ops2) id ∧
+           obsEntered (run fix t0 ops1) id = obsEntered (run fix t0 ops2) id) := by
+  obtain ⟨hi, hg, he, hn⟩ := sched_invariant fix hs
+  refine ⟨?_, ?_, ?_⟩
+  · rw [window_refines_ledger fix t0 ops1 h0 hm1 k Iv now hnow1 hIv,
+        window_refines_ledger fix t0 ops2 h0 hm2 k Iv now hnow2 hIv]
+    cases k with
+    | none => simp only [ledWindow, if_true, Option.map, refW_eq_tally]; rw [he none]
+    | some r =>
+      simp only [ledWindow, hn r]
+      split_ifs
+      · simp only [Option.map, refW_eq_tally]; rw [he (some r)]
+      · rfl
+  · rw [conc_refines_ledger fix t0 ops1 h0 hm1 k, conc_refines_ledger fix t0 ops2 h0 hm2 k]
+    cases k with
+    | none => simp only [ledConc, hg none]
+    | some r => simp only [ledConc, hn r, hg (some r)]
+  · intro id
+    obtain ⟨a1, b1⟩ := ctx_refines_ledger fix t0 ops1 h0 hm1 id
+    obtain ⟨a2, b2⟩ := ctx_refines_ledger fix t0 ops2 h0 hm2 id
+    rw [a1, a2, b1, b2]
+    unfold ledCtx ledEntered
+    rw [hi id]
+    exact ⟨rfl, rfl⟩
 
 /-! ## (3) the statement for the code as it is, and where it fails -/
 
